@@ -401,6 +401,45 @@ func runC15(c *core.Ctx) {
 		})
 	}
 
+	// the lexical forms of one number in each component position: xsd:duration numbers are decimal whatever zeros lead them
+	c.Group("duration-number-forms")
+	{
+		nums := []string{"0", "00", "01", "07", "08", "09", "010", "0010", "011", "017", "018", "019", "0100", "000000000000000000001", "10", "100", "0x10", "0b1", "0o7", "1e1", "+1", "1_0", " 1", "１"}
+		tmpl := []string{"P%sY", "P%sM", "P%sD", "PT%sH", "PT%sM", "PT%sS", "PT%s.5S", "PT0.%sS", "-P%sD", "P%sDT%sH", "PT%sH%sM%sS"}
+		for _, tp := range tmpl {
+			tp := tp
+			c.Case("durnum/"+tp, func(t *core.T) {
+				t.NonTrivial()
+				cnt := 0
+				for _, n := range nums {
+					args := make([]interface{}, strings.Count(tp, "%s"))
+					for i := range args {
+						args[i] = n
+					}
+					str := fmt.Sprintf(tp, args...)
+					cnt++
+					want, ok, amb := refDuration(str)
+					var got saml.Duration
+					err, p := guard(func() error { return got.UnmarshalText([]byte(str)) })
+					switch {
+					case p != "":
+						t.Fail("C15/duration-string/panic", "UnmarshalText(%q) panicked: %s", str, p)
+					case amb:
+					case ok && err != nil:
+						t.Fail("C15/duration-string/rejects-valid", "valid xsd:duration %q rejected: %v", str, err)
+					case ok && time.Duration(got) != want:
+						t.Fail("C15/duration-string/wrong-value", "xsd:duration %q parsed as %d ns, reference says %d ns", str, int64(got), int64(want))
+					case !ok && err == nil:
+						t.Fail("C15/duration-string/accepts-invalid", "string %q is not an xsd:duration but parsed as %d ns", str, int64(got))
+					}
+				}
+				t.Compared()
+				t.Evals(cnt)
+				t.Impl(cnt)
+			})
+		}
+	}
+
 	// --- instants ---
 	c.Group("instants")
 	years := []int{1, 1969, 1970, 2000, 2038, 9999}
